@@ -87,7 +87,10 @@ def run(run, thorough):
     n = 500 if not thorough else 8000
     scns, metas = [], []
     for i in range(n):
-        s, m = putlib.gen_put(run.rng)
+        # sometimes a home directory whose name is not a valid regular expression / format string: the message that abbreviates the trash
+        # directory to ~/... is built AFTER the entry has been moved
+        lay = scen.Layout(run.rng, home_name=run.rng.choice([None] * 6 + ['/home/u(x', '/home/team[a', '/home/u)', '/home/u%s']))
+        s, m = putlib.gen_put(run.rng, layout=lay)
         scns.append(s)
         metas.append(m)
     out = engine.run_all(run, 'put', scns)
@@ -98,6 +101,11 @@ def run(run, thorough):
         run.count('state')
         outs = putlib.conservation(run, scn, meta, res, 'state')
         o = res['steps'][0]
+        if o['exc'] is not None:
+            # a traceback is a report of failure for everything on the command line - including arguments already moved, and those never handled
+            run.fail('oracle', 'trash-put ended with an uncaught exception (exit %s): failure is reported although arguments were trashed, '
+                     'or arguments were never handled' % o['exit'],
+                     {'scenario': scn, 'exc': o['exc'], 'exit': o['exit'], 'outcomes': outs, 'stderr': o['stderr'][-500:]}, key='uncaught-exception', section='state')
         run.nontriv(('put', tuple(sorted(a['kind'] for a in meta['args'])), tuple(outs), meta['mode'], o['exit']))
         monitors(run, scn, res, jobs_put, jobs_skip)
     engine.run_monitors(run, 'put-monitor', jobs_put, 'the put-discipline monitor (Coq) rejects the implementation trace', 'put-discipline', silent=True)
@@ -138,6 +146,9 @@ def replay(run, payload):
         p = os.path.normpath(os.path.join(scn.get('cwd', '/'), a))
         args.append({'arg': a, 'kind': '?', 'entry': p if p in before and os.path.basename(a.rstrip('/')) not in ('.', '..') else None, 'expect': '?'})
     putlib.conservation(run, scn, {'args': args, 'mode': '?'}, res, 'state')
+    if o['exc'] is not None and not (scn['steps'][0].get('plan') or {}):
+        run.fail('oracle', 'trash-put ended with an uncaught exception (exit %s)' % o['exit'], {'scenario': scn, 'exc': o['exc']},
+                 key='uncaught-exception', section='state')
     jp, js = [], []
     monitors(run, scn, res, jp, js)
     engine.run_monitors(run, 'put-monitor', jp, 'put-discipline monitor rejects', 'put-discipline')
